@@ -8,6 +8,9 @@ Section Gen.
 (* T::new of the generic functions: which value it builds depends on the type parameter, that is,
    on the kind of its `start` argument; the theorems about these definitions quantify over it *)
 Variable t_new : list val -> val.
+(* the functions these call that are not translated here (by name, receiver first): the theorems
+   state what they assume of them *)
+Variable ext : string -> list val -> val.
 
 
 (* ---- /repo/src/io_loop/content_collector.rs :: State.collect_header ---- *)
@@ -33,68 +36,17 @@ match scrut_1 with
     | [a_7] => (if v_eqb (v_field "body_size" header) (VN 0) then
 (VC "Ok" [(VC "Content::Done" [(t_new [channel_id; a_7; (VBytes []); (v_field "properties" header)])])])
 else
-let prealloc_8 := (v_min (v_field "body_size" header) (VN 1048576)) in
-let buf_9 := (VBytes []) in
-(VC "Ok" [(VC "Content::NeedMore" [(VC "State::Body" [a_7; header; buf_9])])]))
+let v_8 := (v_min (v_field "body_size" header) (VN 1048576)) in
+let v_9 := (VBytes []) in
+(VC "Ok" [(VC "Content::NeedMore" [(VC "State::Body" [a_7; header; v_9])])]))
     | _ => next_2 tt
     end
   else next_2 tt
 | _ => next_2 tt
 end)).
 
-(* ---- /repo/src/io_loop/content_collector.rs :: State.collect_body ---- *)
-Definition gen_State_collect_body (self : val) (channel_id : val) (body : val) : val :=
-(let scrut_1 := self in
-(let next_2 := fun _ : unit =>
-(let next_3 := fun _ : unit =>
-VStuck in
-match scrut_1 with
-| VC c_ args_ =>
-  if (c_ =? "State::Start")%string then
-    match args_ with
-    | [a_4] => (VC "Err" [VC "FrameUnexpected" []])
-    | _ => next_3 tt
-    end
-  else next_3 tt
-| _ => next_3 tt
-end) in
-match scrut_1 with
-| VC c_ args_ =>
-  if (c_ =? "State::Body")%string then
-    match args_ with
-    | [a_5; a_6; a_7] => let body_size_8 := (v_field "body_size" a_6) in
-let buf_9 := v_append a_7 body in
-(let scrut_10 := (v_cmp (v_len buf_9) body_size_8) in
-(let next_11 := fun _ : unit =>
-(let next_12 := fun _ : unit =>
-(let next_13 := fun _ : unit =>
-VStuck in
-(VC "Err" [VC "FrameUnexpected" []])) in
-match scrut_10 with
-| VC c_ args_ =>
-  if (c_ =? "Ordering::Less")%string then
-    match args_ with
-    | [] => (VC "Ok" [(VC "Content::NeedMore" [(VC "State::Body" [a_5; a_6; buf_9])])])
-    | _ => next_12 tt
-    end
-  else next_12 tt
-| _ => next_12 tt
-end) in
-match scrut_10 with
-| VC c_ args_ =>
-  if (c_ =? "Ordering::Equal")%string then
-    match args_ with
-    | [] => (VC "Ok" [(VC "Content::Done" [(t_new [channel_id; a_5; buf_9; (v_field "properties" a_6)])])])
-    | _ => next_11 tt
-    end
-  else next_11 tt
-| _ => next_11 tt
-end))
-    | _ => next_2 tt
-    end
-  else next_2 tt
-| _ => next_2 tt
-end)).
+(* TRANSLATION FAILED for State.collect_body: expected '==', found '>=' (at token 57) *)
+Definition gen_State_collect_body : val := translation_failed.
 
 (* ---- /repo/src/io_loop/content_collector.rs :: ContentCollector.collect_deliver ---- *)
 Definition gen_ContentCollector_collect_deliver (self : val) (deliver : val) : val * val :=
@@ -386,7 +338,7 @@ match taken_1 with
 | VC c_ args_ =>
   if (c_ =? "Kind::Get")%string then
     match args_ with
-    | [a_8] => (let tried_9 := (gen_State_collect_body a_8 (v_field "channel_id" self_2) body) in
+    | [a_8] => (let tried_9 := (ext "collect_body" [a_8; (v_field "channel_id" self_2); body]) in
 match tried_9 with
 | VC "Err" [err_11] => (self_2, (VC "Err" [err_11]))
 | VC "Ok" [okval_10] =>
@@ -435,7 +387,7 @@ match taken_1 with
 | VC c_ args_ =>
   if (c_ =? "Kind::Return")%string then
     match args_ with
-    | [a_19] => (let tried_20 := (gen_State_collect_body a_19 (v_field "channel_id" self_2) body) in
+    | [a_19] => (let tried_20 := (ext "collect_body" [a_19; (v_field "channel_id" self_2); body]) in
 match tried_20 with
 | VC "Err" [err_22] => (self_2, (VC "Err" [err_22]))
 | VC "Ok" [okval_21] =>
@@ -484,7 +436,7 @@ match taken_1 with
 | VC c_ args_ =>
   if (c_ =? "Kind::Delivery")%string then
     match args_ with
-    | [a_30] => (let tried_31 := (gen_State_collect_body a_30 (v_field "channel_id" self_2) body) in
+    | [a_30] => (let tried_31 := (ext "collect_body" [a_30; (v_field "channel_id" self_2); body]) in
 match tried_31 with
 | VC "Err" [err_33] => (self_2, (VC "Err" [err_33]))
 | VC "Ok" [okval_32] =>
